@@ -1,1 +1,636 @@
-fn main() {}
+//! C03 — cleanup code frees exactly the heap data the lowering allocated.
+//! Lower with realloc (export result / payload / async-import parameters), then
+//! run post_return / deallocate_lists_in_types / deallocate_lists_and_own_in_types
+//! in the abstract machine and judge the allocator ledger + DropHandle multiset.
+use abi_interp::cmp::*;
+use abi_interp::corpus::*;
+use abi_interp::harness::*;
+use abi_interp::ir::*;
+use abi_interp::machine::*;
+use abi_interp::mem::*;
+use abi_interp::runs::*;
+use cabi_ref::{Abi, CoreVal, GenCfg, Shape, Val};
+use serde_json::json;
+use vkit::{hash64, Args, Report, Rng};
+use wit_bindgen_core::abi::{self, AbiVariant, LiftLower, WasmType};
+use wit_bindgen_core::wit_parser::{Function, Type};
+
+// stable signatures of the genuine defects this check is known to exhibit
+const SIG_FIXED_LEAK: &str = "dealloc-indirect:fixed-length-list-contents-not-released";
+const SIG_FIXED_TODO: &str = "dealloc-direct:fixed-length-list:todo-panic";
+const SIG_ERRCTX_NEEDS: &str = "needs-post-return:error-context-result-without-heap-buffer";
+const SIG_ERRCTX_ASSERT: &str = "post_return:error-context-result:assert-retptr";
+
+struct RetHost {
+    result: Option<Val>,
+}
+impl Host for RetHost {
+    fn call_interface(&mut self, _n: &str, _a: Vec<Val>, _h: bool, _async: bool) -> Result<Option<Val>, String> {
+        Ok(self.result.clone())
+    }
+}
+
+struct C<'a> {
+    unit: &'a Unit,
+    ctx: &'a Ctx<'a>,
+}
+
+fn contains_fixed(abi: &Abi, ty: &Type) -> bool {
+    match abi.shape(ty) {
+        Shape::FixedList(..) => true,
+        Shape::List(t) => contains_fixed(abi, &t),
+        Shape::Map(k, v) => contains_fixed(abi, &k) || contains_fixed(abi, &v),
+        Shape::Record(fs) => fs.iter().any(|f| contains_fixed(abi, f)),
+        Shape::Variant(cs, _) => cs.iter().flatten().any(|t| contains_fixed(abi, t)),
+        _ => false,
+    }
+}
+
+fn contains_error_context(abi: &Abi, ty: &Type) -> bool {
+    match abi.shape(ty) {
+        Shape::Handle(cabi_ref::HandleKind::ErrorContext) => true,
+        Shape::List(t) | Shape::FixedList(t, _) => contains_error_context(abi, &t),
+        Shape::Map(k, v) => contains_error_context(abi, &k) || contains_error_context(abi, &v),
+        Shape::Record(fs) => fs.iter().any(|f| contains_error_context(abi, f)),
+        Shape::Variant(cs, _) => cs.iter().flatten().any(|t| contains_error_context(abi, t)),
+        _ => false,
+    }
+}
+
+/// heap blocks and owned handles of a value that sit inside a fixed-length list
+#[derive(Default)]
+struct InFixed {
+    blocks: usize,
+    owned: Vec<u32>,
+}
+
+fn walk_fixed(abi: &Abi, ty: &Type, val: &Val, inside: bool, acc: &mut InFixed) {
+    use cabi_ref::HandleKind;
+    match (abi.shape(ty), val) {
+        (Shape::String, Val::Str(s)) => {
+            if inside && !s.is_empty() {
+                acc.blocks += 1
+            }
+        }
+        (Shape::List(t), Val::List(es)) => {
+            if inside && !es.is_empty() && abi.elem_size(&t) > 0 {
+                acc.blocks += 1;
+            }
+            es.iter().for_each(|e| walk_fixed(abi, &t, e, inside, acc));
+        }
+        (Shape::Map(k, v), Val::Map(es)) => {
+            if inside && !es.is_empty() {
+                acc.blocks += 1;
+            }
+            es.iter().for_each(|(a, b)| {
+                walk_fixed(abi, &k, a, inside, acc);
+                walk_fixed(abi, &v, b, inside, acc);
+            });
+        }
+        (Shape::FixedList(t, _), Val::List(es)) => es.iter().for_each(|e| walk_fixed(abi, &t, e, true, acc)),
+        (Shape::Record(fs), Val::Record(vs)) => fs.iter().zip(vs).for_each(|(f, v)| walk_fixed(abi, f, v, inside, acc)),
+        (Shape::Variant(cs, _), Val::Variant(c, Some(p))) => {
+            if let Some(t) = &cs[*c as usize] {
+                walk_fixed(abi, t, p, inside, acc)
+            }
+        }
+        (Shape::Handle(HandleKind::Own | HandleKind::Future | HandleKind::Stream), Val::Handle(h)) => {
+            if inside {
+                acc.owned.push(*h)
+            }
+        }
+        _ => {}
+    }
+}
+
+struct Scenario<'s> {
+    /// e.g. "post_return", "payload-indirect", "params-direct"
+    entry: &'s str,
+    own: bool,
+    path: &'s str,
+    width: usize,
+    policy: CanonPolicy,
+    tys: &'s [Type],
+    vals: &'s [Val],
+}
+
+fn witness(c: &C, s: &Scenario) -> serde_json::Value {
+    json!({"unit": c.unit.label, "wit": c.unit.wit, "synthetic": c.unit.synthetic, "path": s.path, "width": s.width, "policy": s.policy.name(),
+           "mode": format!("{}:{}", s.entry, if s.own { "lists-and-own" } else { "lists" }),
+           "value": s.vals.iter().map(|v| v.text()).collect::<Vec<_>>()})
+}
+
+fn violation(rep: &mut Report, c: &C, s: &Scenario, sig: &str, detail: &str) {
+    rep.count("failures");
+    if rep.has_violation(sig) {
+        return;
+    }
+    let abi = Abi::new(c.ctx.resolve, s.width);
+    if s.tys.iter().any(|t| outside_encodable_domain(&abi, t)) {
+        rep.inconclusive("outside encodable domain (flags with 0 or >32 members)");
+        return;
+    }
+    if let Some(d) = s.tys.iter().find_map(|t| layout_disagreement(c.ctx, &abi, t)) {
+        rep.inconclusive(&format!("reference or wit-parser suspect — triage first: {}", shorten(&d, 200)));
+        return;
+    }
+    let tydesc = s.tys.iter().map(|t| shorten(&abi.shape_key(t), 120)).collect::<Vec<_>>().join(", ");
+    rep.violation(
+        sig,
+        &format!("{detail} [{} {} types ({tydesc}) values ({}) width {} policy {}]", s.entry, s.path, shorten(&s.vals.iter().map(|v| v.text()).collect::<Vec<_>>().join(", "), 300), s.width, s.policy.name()),
+        witness(c, s),
+    );
+}
+
+fn generic_sig(s: &Scenario, class: &str, abi: &Abi) -> String {
+    let kind = s.tys.first().map(|t| top_kind(abi, t)).unwrap_or_else(|| "none".into());
+    format!("{}:{}:{class}:{kind}", s.entry, if s.own { "lists-and-own" } else { "lists" })
+}
+
+/// Judge the memory + events after the cleanup program ran.
+fn judge(rep: &mut Report, c: &C, s: &Scenario, mem: &Mem, dropped: &[u32], keep: &[u64]) {
+    let abi = Abi::new(c.ctx.resolve, s.width);
+    rep.count(&format!("judged:{}:{}", s.entry, if s.own { "own" } else { "lists" }));
+    rep.count_n("blocks_allocated", mem.count(BlockKind::Realloc) as u64);
+    rep.count_n("zero_size_frees", mem.zero_size_frees);
+    let mut in_fixed = InFixed::default();
+    for (t, v) in s.tys.iter().zip(s.vals) {
+        walk_fixed(&abi, t, v, false, &mut in_fixed);
+    }
+    // bad frees (double, wrong size/align, not owned, unallocated)
+    if let Some(e) = mem.ledger_errors.first() {
+        violation(rep, c, s, &generic_sig(s, &format!("ledger:{}", e.class), &abi), &e.detail);
+    }
+    // leaks
+    let live: Vec<&AllocRec> = mem.live(BlockKind::Realloc).into_iter().filter(|b| !keep.contains(&b.addr)).collect();
+    let mut fixed_defect = false;
+    if !live.is_empty() {
+        if live.len() == in_fixed.blocks {
+            fixed_defect = true;
+        } else {
+            let b = live[0];
+            violation(
+                rep,
+                c,
+                s,
+                &generic_sig(s, "leak", &abi),
+                &format!("{} of {} blocks allocated by the lowering were never freed (first: {} bytes align {} from {}; {} blocks sit inside fixed-length lists)", live.len(), mem.count(BlockKind::Realloc), b.size, b.align, b.what, in_fixed.blocks),
+            );
+        }
+    }
+    // handles
+    let mut want_owned = vec![];
+    let mut borrowed = vec![];
+    if s.own {
+        for (t, v) in s.tys.iter().zip(s.vals) {
+            collect_handles(&abi, t, v, &mut want_owned, &mut borrowed);
+        }
+    }
+    let mut got = dropped.to_vec();
+    got.sort();
+    want_owned.sort();
+    if got != want_owned {
+        let mut minus_fixed = want_owned.clone();
+        for h in &in_fixed.owned {
+            if let Some(i) = minus_fixed.iter().position(|x| x == h) {
+                minus_fixed.remove(i);
+            }
+        }
+        if s.own && got == minus_fixed {
+            fixed_defect = true;
+        } else {
+            violation(rep, c, s, &generic_sig(s, "drop-handle-multiset", &abi), &format!("DropHandle operands {got:?}, owned handles in the value {want_owned:?} (borrows {borrowed:?})"));
+        }
+    }
+    if fixed_defect {
+        rep.count("fixed-length-list-contents-not-released");
+        violation(
+            rep,
+            c,
+            s,
+            SIG_FIXED_LEAK,
+            &format!(
+                "heap buffers / owned handles inside a fixed-length list are never released: {} leaked blocks, handles not dropped {:?}; Generator::deallocate_indirect has `TypeDefKind::FixedLengthList(_, _) => {{}}` although needs_deallocate() recurses into the element type",
+                live.len(),
+                in_fixed.owned
+            ),
+        );
+    }
+}
+
+fn machine_fail(rep: &mut Report, c: &C, s: &Scenario, stage: &str, e: &MErr) {
+    let abi = Abi::new(c.ctx.resolve, s.width);
+    violation(rep, c, s, &generic_sig(s, &format!("{stage}:{}", e.class), &abi), &e.detail);
+}
+
+fn record_fail(rep: &mut Report, c: &C, s: &Scenario, what: &str, e: &RecErr) {
+    let abi = Abi::new(c.ctx.resolve, s.width);
+    let sig = e.sig();
+    if let RecErr::Panic(p) = e {
+        if p.site() == "core/abi.rs:deallocate" && p.msg.starts_with("not yet implemented") && s.tys.iter().any(|t| contains_fixed(&abi, t)) {
+            rep.count("fixed-length-list-direct-todo");
+            violation(rep, c, s, SIG_FIXED_TODO, &format!("Generator::deallocate hits `TypeDefKind::FixedLengthList(..) => todo!()`: no cleanup code can be generated for flat operands containing a fixed-length list ({})", e.text()));
+            return;
+        }
+    }
+    violation(rep, c, s, &generic_sig(s, &format!("record-{what}:{sig}"), &abi), &e.text());
+}
+
+/// S2: payload of type `ty` lowered to memory / flat, then deallocated.
+fn check_type(rep: &mut Report, c: &C, path: &str, ty: Type, seed: u64, nvals: usize) {
+    let resolve = c.ctx.resolve;
+    let abi4 = Abi::new(resolve, 4);
+    rep.distinct(&abi4.shape_key(&ty));
+    let mut rng = Rng::new(seed ^ hash64(format!("{}/{}", c.unit.label, path).as_bytes()));
+    let gcfg = GenCfg { max_list: 4, max_handle: 1 << 16, ..Default::default() };
+    let vals = abi4.gen_vals(&mut rng, &ty, &gcfg, nvals);
+    let nflat = abi4.flatten(&ty).len();
+    let mut elems = vec![];
+    list_elements(&abi4, &ty, &mut elems);
+    let mut policies = vec![CanonPolicy::Never];
+    if elems.iter().any(|e| is_canonical(CanonPolicy::RustLike, resolve, e)) {
+        policies.push(CanonPolicy::RustLike);
+    }
+    let tys = [ty];
+    for policy in policies {
+        let lm = record_lower_to_memory(resolve, &ty, policy);
+        let lf = if nflat <= 16 { Some(record_lower_flat(resolve, &ty, policy)) } else { None };
+        for own in [false, true] {
+            let di = record_dealloc(resolve, &tys, 1, true, own, policy);
+            let dd = if nflat <= 16 { Some(record_dealloc(resolve, &tys, nflat, false, own, policy)) } else { None };
+            for width in [4usize, 8] {
+                let abi = Abi::new(resolve, width);
+                for v in &vals {
+                    let one = [v.clone()];
+                    // ---------------- indirect
+                    let s = Scenario { entry: "payload-indirect", own, path, width, policy, tys: &tys, vals: &one };
+                    match (&lm, &di) {
+                        (Ok(lm), Ok(di)) => {
+                            rep.eval();
+                            let mut host = NoHost;
+                            let mut mem = Mem::new(width);
+                            let addr = mem.alloc(abi.elem_size(&ty).max(1), abi.alignment(&ty), BlockKind::Harness, "payload-buffer").unwrap();
+                            let mut m = Machine::new(c.ctx, width, mem, &mut host);
+                            m.set(lm.addr, MV::Core(m.ptr_val(addr)));
+                            m.set(lm.value, MV::Iface(v.clone()));
+                            if let Err(e) = m.run(&lm.prog.body) {
+                                machine_fail(rep, c, &s, "lowering", &e);
+                                continue;
+                            }
+                            let mem = m.mem;
+                            let mut host = NoHost;
+                            let mut m = Machine::new(c.ctx, width, mem, &mut host);
+                            m.set(di.operands[0], MV::Core(m.ptr_val(addr)));
+                            let r = m.run(&di.prog.body);
+                            rep.count_n("machine_steps", m.ev.steps);
+                            match r {
+                                Err(e) => machine_fail(rep, c, &s, "cleanup", &e),
+                                Ok(()) => judge(rep, c, &s, &m.mem, &m.ev.dropped, &[]),
+                            }
+                        }
+                        (Err(e), _) => record_fail(rep, c, &s, "lower_to_memory", e),
+                        (_, Err(e)) => record_fail(rep, c, &s, "deallocate", e),
+                    }
+                    // ---------------- direct
+                    let s = Scenario { entry: "payload-direct", own, path, width, policy, tys: &tys, vals: &one };
+                    if let (Some(lf), Some(dd)) = (&lf, &dd) {
+                        match (lf, dd) {
+                            (Ok(lf), Ok(dd)) => {
+                                rep.eval();
+                                let mut host = NoHost;
+                                let mut m = Machine::new(c.ctx, width, Mem::new(width), &mut host);
+                                m.set(lf.value, MV::Iface(v.clone()));
+                                if let Err(e) = m.run(&lf.prog.body) {
+                                    machine_fail(rep, c, &s, "lowering", &e);
+                                    continue;
+                                }
+                                let flat: Result<Vec<MV>, MErr> = lf.results.iter().map(|o| m.get(*o)).collect();
+                                let Ok(flat) = flat else { continue };
+                                let mem = m.mem;
+                                let mut host = NoHost;
+                                let mut m = Machine::new(c.ctx, width, mem, &mut host);
+                                for (o, f) in dd.operands.iter().zip(flat) {
+                                    m.set(*o, f);
+                                }
+                                let r = m.run(&dd.prog.body);
+                                rep.count_n("machine_steps", m.ev.steps);
+                                match r {
+                                    Err(e) => machine_fail(rep, c, &s, "cleanup", &e),
+                                    Ok(()) => judge(rep, c, &s, &m.mem, &m.ev.dropped, &[]),
+                                }
+                            }
+                            (Err(e), _) => record_fail(rep, c, &s, "lower_flat", e),
+                            (_, Err(e)) => record_fail(rep, c, &s, "deallocate", e),
+                        }
+                    }
+                }
+            }
+        }
+    }
+}
+
+/// S1 (export result + post_return) and S3 (async-import parameters).
+fn check_func(rep: &mut Report, c: &C, path: &str, func: &Function, seed: u64, nsets: usize) {
+    let resolve = c.ctx.resolve;
+    let abi4 = Abi::new(resolve, 4);
+    let ptys: Vec<Type> = func.params.iter().map(|p| p.ty).collect();
+    let h = hash64(format!("{}/{}", c.unit.label, path).as_bytes());
+    let mut rng = Rng::new(seed ^ h);
+    let gcfg = GenCfg { max_list: 3, max_handle: 1 << 16, ..Default::default() };
+    let policy = if h % 2 == 0 { CanonPolicy::Never } else { CanonPolicy::RustLike };
+    rep.distinct(&format!("fn:{}->{}", ptys.iter().map(|t| abi4.shape_key(t)).collect::<Vec<_>>().join(","), func.result.map(|t| abi4.shape_key(&t)).unwrap_or_default()));
+
+    // ------------------------------------------------ S1: result + post_return
+    if let Some(rty) = func.result {
+        let rtys = [rty];
+        let needs = abi::guest_export_needs_post_return(resolve, func);
+        let heap = abi4.contains_heap(&rty);
+        rep.eval();
+        rep.count(&format!("needs_post_return:{needs}:contains_heap:{heap}"));
+        let s0 = Scenario { entry: "post_return", own: false, path, width: 4, policy, tys: &rtys, vals: &[] };
+        if needs != heap {
+            if needs && contains_error_context(&abi4, &rty) {
+                rep.count("error-context-needs-post-return");
+                violation(rep, c, &s0, SIG_ERRCTX_NEEDS, &format!("guest_export_needs_post_return() = true for result type {} which contains no string/list/map: needs_deallocate(Type::ErrorContext) returns true", shorten(&abi4.shape_key(&rty), 200)));
+            } else {
+                violation(rep, c, &s0, &format!("needs-post-return:{}:{}", if needs { "true-without-heap" } else { "false-with-heap" }, top_kind(&abi4, &rty)), &format!("guest_export_needs_post_return() = {needs} but the result type {} heap buffers (by type)", if heap { "contains" } else { "contains no" }));
+            }
+        }
+        if needs {
+            let call = record_call(resolve, AbiVariant::GuestExport, LiftLower::LiftArgsLowerResults, func, false, policy);
+            let post = record_post_return(resolve, func, policy);
+            match (&call, &post) {
+                (Ok(call), Ok(post)) => {
+                    for width in [4usize, 8] {
+                        if width == 8 && matches!(func.kind, wit_bindgen_core::wit_parser::FunctionKind::Method(_) | wit_bindgen_core::wit_parser::FunctionKind::AsyncMethod(_)) {
+                            continue;
+                        }
+                        let abi = Abi::new(resolve, width);
+                        let mut vals = abi.gen_vals(&mut rng, &rty, &gcfg, nsets);
+                        vals.truncate(nsets.max(8));
+                        for r in &vals {
+                            rep.eval();
+                            let one = [r.clone()];
+                            let s = Scenario { entry: "post_return", own: false, path, width, policy, tys: &rtys, vals: &one };
+                            // caller side: build arguments per the reference
+                            let mut mem = Mem::new(width);
+                            mem.trait_kind = BlockKind::Harness;
+                            let params: Vec<Val> = ptys.iter().map(|t| abi.gen_val(&mut rng, t, &gcfg, 1)).collect();
+                            let sig = abi.signature(&ptys, Some(&rty), cabi_ref::SigKind::SyncLift);
+                            let mut args = vec![];
+                            let mut ok = true;
+                            if sig.indirect_params {
+                                let (sz, al) = abi.record_layout(&ptys);
+                                let p = mem.alloc(sz.max(1), al, BlockKind::Realloc, "param-record").unwrap();
+                                for ((t, v), o) in ptys.iter().zip(&params).zip(abi.field_offsets(&ptys)) {
+                                    ok &= abi.store(&mut mem, v, t, p + o as u64).is_ok();
+                                }
+                                args.push(MV::Core(CoreVal::from_bits(core_of(WasmType::Pointer, width), p)));
+                            } else {
+                                for (t, v) in ptys.iter().zip(&params) {
+                                    match abi.lower_flat(&mut mem, v, t) {
+                                        Ok(f) => args.extend(f.into_iter().map(MV::Core)),
+                                        Err(_) => ok = false,
+                                    }
+                                }
+                            }
+                            if !ok {
+                                rep.inconclusive("reference could not build the export arguments");
+                                continue;
+                            }
+                            let mut host = RetHost { result: Some(r.clone()) };
+                            let mut m = Machine::new(c.ctx, width, mem, &mut host);
+                            m.args = args;
+                            if let Err(e) = m.run(&call.body) {
+                                machine_fail(rep, c, &s, "export-call", &e);
+                                continue;
+                            }
+                            let ret = m.ev.returns.first().and_then(|r| r.first()).cloned();
+                            let Some(MV::Core(ptr)) = ret else {
+                                violation(rep, c, &s, &generic_sig(&s, "export-returned-no-pointer", &abi), "post-return needed but the export did not return a pointer");
+                                continue;
+                            };
+                            let mem = m.mem;
+                            let mut host = NoHost;
+                            let mut m = Machine::new(c.ctx, width, mem, &mut host);
+                            m.args = vec![MV::Core(ptr)];
+                            let r2 = m.run(&post.body);
+                            rep.count_n("machine_steps", m.ev.steps);
+                            match r2 {
+                                Err(e) => machine_fail(rep, c, &s, "cleanup", &e),
+                                Ok(()) => {
+                                    if m.ev.returns.len() != 1 || !m.ev.returns[0].is_empty() {
+                                        violation(rep, c, &s, &generic_sig(&s, "return", &abi), "post_return must end with Return { amt: 0 }");
+                                    }
+                                    judge(rep, c, &s, &m.mem, &m.ev.dropped, &[]);
+                                }
+                            }
+                        }
+                    }
+                }
+                (Err(e), _) => record_fail(rep, c, &s0, "call", e),
+                (_, Err(e)) => {
+                    let is_assert = matches!(e, RecErr::Panic(p) if p.site() == "core/abi.rs:post_return" && p.msg.contains("sig.retptr"));
+                    if is_assert && contains_error_context(&abi4, &rty) && !heap {
+                        rep.count("error-context-post-return-assert");
+                        violation(rep, c, &s0, SIG_ERRCTX_ASSERT, &format!("post_return panics on `assert!(sig.retptr)` for a result that flattens to a single value ({}): guest_export_needs_post_return() said a post-return is needed ({})", shorten(&abi4.shape_key(&rty), 100), e.text()));
+                    } else {
+                        record_fail(rep, c, &s0, "post_return", e)
+                    }
+                }
+            }
+        }
+    }
+
+    // ------------------------------------------------ S3: async-import params
+    if ptys.is_empty() {
+        return;
+    }
+    let nflat: usize = ptys.iter().map(|t| abi4.flatten(t).len()).sum();
+    let indirect = nflat > cabi_ref::MAX_FLAT_ASYNC_PARAMS;
+    for own in [false, true] {
+        let entry = if indirect { "params-indirect" } else { "params-direct" };
+        let dealloc = record_dealloc(resolve, &ptys, if indirect { 1 } else { nflat }, indirect, own, policy);
+        // how the Rust backend lowers async-import parameters: lower_to_memory per
+        // parameter at its field offset, or lower_flat per parameter
+        let lowers_mem: Vec<_> = if indirect { ptys.iter().map(|t| record_lower_to_memory(resolve, t, policy)).collect() } else { vec![] };
+        let lowers_flat: Vec<_> = if indirect { vec![] } else { ptys.iter().map(|t| record_lower_flat(resolve, t, policy)).collect() };
+        for width in [4usize, 8] {
+            let abi = Abi::new(resolve, width);
+            for _ in 0..nsets {
+                let vals: Vec<Val> = ptys.iter().map(|t| abi.gen_val(&mut rng, t, &gcfg, 0)).collect();
+                let s = Scenario { entry, own, path, width, policy, tys: &ptys, vals: &vals };
+                let d = match &dealloc {
+                    Ok(d) => d,
+                    Err(e) => {
+                        record_fail(rep, c, &s, "deallocate", e);
+                        continue;
+                    }
+                };
+                rep.eval();
+                let mut mem = Mem::new(width);
+                let mut operands: Vec<MV> = vec![];
+                let mut failed = false;
+                if indirect {
+                    let (sz, al) = abi.record_layout(&ptys);
+                    let base = mem.alloc(sz.max(1), al, BlockKind::Harness, "async-param-area").unwrap();
+                    for (((t, v), o), lm) in ptys.iter().zip(&vals).zip(abi.field_offsets(&ptys)).zip(&lowers_mem) {
+                        let _ = t;
+                        match lm {
+                            Ok(lm) => {
+                                let mut host = NoHost;
+                                let mut m = Machine::new(c.ctx, width, mem, &mut host);
+                                m.set(lm.addr, MV::Core(m.ptr_val(base + o as u64)));
+                                m.set(lm.value, MV::Iface(v.clone()));
+                                let r = m.run(&lm.prog.body);
+                                mem = m.mem;
+                                if let Err(e) = r {
+                                    machine_fail(rep, c, &s, "lowering", &e);
+                                    failed = true;
+                                    break;
+                                }
+                            }
+                            Err(e) => {
+                                record_fail(rep, c, &s, "lower_to_memory", e);
+                                failed = true;
+                                break;
+                            }
+                        }
+                    }
+                    operands.push(MV::Core(CoreVal::from_bits(core_of(WasmType::Pointer, width), base)));
+                } else {
+                    for (v, lf) in vals.iter().zip(&lowers_flat) {
+                        match lf {
+                            Ok(lf) => {
+                                let mut host = NoHost;
+                                let mut m = Machine::new(c.ctx, width, mem, &mut host);
+                                m.set(lf.value, MV::Iface(v.clone()));
+                                let r = m.run(&lf.prog.body);
+                                let flat: Result<Vec<MV>, MErr> = lf.results.iter().map(|o| m.get(*o)).collect();
+                                mem = m.mem;
+                                match (r, flat) {
+                                    (Ok(()), Ok(f)) => operands.extend(f),
+                                    (Err(e), _) | (_, Err(e)) => {
+                                        machine_fail(rep, c, &s, "lowering", &e);
+                                        failed = true;
+                                        break;
+                                    }
+                                }
+                            }
+                            Err(e) => {
+                                record_fail(rep, c, &s, "lower_flat", e);
+                                failed = true;
+                                break;
+                            }
+                        }
+                    }
+                }
+                if failed || operands.len() != d.operands.len() {
+                    continue;
+                }
+                let mut host = NoHost;
+                let mut m = Machine::new(c.ctx, width, mem, &mut host);
+                for (o, f) in d.operands.iter().zip(operands) {
+                    m.set(*o, f);
+                }
+                let r = m.run(&d.prog.body);
+                rep.count_n("machine_steps", m.ev.steps);
+                match r {
+                    Err(e) => machine_fail(rep, c, &s, "cleanup", &e),
+                    Ok(()) => judge(rep, c, &s, &m.mem, &m.ev.dropped, &[]),
+                }
+            }
+        }
+    }
+}
+
+fn main() {
+    let args = Args::parse();
+    let tier = args.str("tier", "quick");
+    let seed = args.seed();
+    let mut rep = Report::new("case = (type or function, value, cleanup entry point, lists|lists-and-own, direct|indirect, pointer width, list policy); distinct = shape keys of the types / signatures");
+    rep.max_samples = 4;
+    rep.assume("zero-length lists/strings allocate nothing and free nothing; cabi_dealloc(ptr, 0, _) is a no-op");
+    rep.assume("lists lifted by the callee are owned by the callee: only blocks allocated by the lowering under test are tracked");
+    let (nrandom, nvals, nsets) = match tier.as_str() {
+        "thorough" => (400, 40, 12),
+        "miri" => (0, 2, 1),
+        _ => (40, 8, 3),
+    };
+    let mut units = vec![];
+    let mut only: Option<serde_json::Value> = None;
+    if let Some(path) = args.get("replay") {
+        let Some(r) = load_replay(path) else {
+            rep.inconclusive("replay file unreadable");
+            rep.write(&args.out());
+            return;
+        };
+        match unit_from_replay(&r) {
+            Some(u) => units.push(u),
+            None => {
+                rep.inconclusive("replay unit cannot be rebuilt");
+                rep.write(&args.out());
+                return;
+            }
+        }
+        only = Some(r);
+    } else {
+        units.push(dealloc_unit());
+        units.extend(boundary_units());
+        if tier != "miri" {
+            units.push(limits_unit());
+        }
+        let mut stats = (0, 0);
+        let mut rng = Rng::new(seed.wrapping_mul(0x9E37_79B9).wrapping_add(3));
+        units.extend(random_units(&mut rng, nrandom, &mut stats));
+        rep.extra.insert("random_worlds".into(), json!(stats.0));
+    }
+    enum W {
+        Ty(String, Type),
+        Fn(String, Function),
+    }
+    let mut work = vec![];
+    for (ui, u) in units.iter().enumerate() {
+        let want = only.as_ref().and_then(|o| o["path"].as_str().map(|s| s.to_string()));
+        for (p, t) in u.value_types() {
+            if want.as_ref().map(|w| *w != p).unwrap_or(false) {
+                continue;
+            }
+            work.push((ui, W::Ty(p, t)));
+        }
+        for f in u.funcs() {
+            if want.as_ref().map(|w| *w != f.path).unwrap_or(false) {
+                continue;
+            }
+            work.push((ui, W::Fn(f.path, f.func)));
+        }
+    }
+    if tier == "miri" {
+        work.truncate(80);
+    }
+    rep.extra.insert("work_items".into(), json!(work.len()));
+    let ctxs: Vec<Ctx> = units.iter().map(|u| Ctx::new(&u.resolve)).collect();
+    let nt = nthreads(&tier);
+    let parts = parallel(nt, |wi| {
+        let mut r = Report::new("");
+        r.max_samples = 1;
+        for (k, (ui, w)) in work.iter().enumerate() {
+            if k % nt != wi {
+                continue;
+            }
+            let c = C { unit: &units[*ui], ctx: &ctxs[*ui] };
+            let res = catch(std::panic::AssertUnwindSafe(|| match w {
+                W::Ty(p, t) => check_type(&mut r, &c, p, *t, seed, nvals),
+                W::Fn(p, f) => check_func(&mut r, &c, p, f, seed, nsets),
+            }));
+            if let Err((msg, loc)) = res {
+                r.inconclusive(&format!("harness panicked at {}: {}", panic_site(&loc), shorten(&msg, 120)));
+            }
+        }
+        r
+    });
+    for p in parts {
+        merge(&mut rep, p);
+    }
+    rep.write(&args.out());
+}
